@@ -18,6 +18,12 @@ _built = None
 
 
 HOOKS = "full"      # full | nostate | off  (set by build())
+RSLEVEL = "full"    # full | nomsgenc | none: what the Rust replay binary could be built with against this tree
+
+
+def rs_level():
+    build()
+    return RSLEVEL
 
 
 def hooks_level():
@@ -36,7 +42,7 @@ def build():
         sys.stderr.write(p.stdout + p.stderr)
         raise ToolError("build failed")
     pkg = rsbin = None
-    global HOOKS
+    global HOOKS, RSLEVEL
     for line in p.stdout.splitlines():
         if line.startswith("PKG="):
             pkg = line[4:].strip()
@@ -44,6 +50,8 @@ def build():
             rsbin = line[6:].strip()
         if line.startswith("HOOKS="):
             HOOKS = line[6:].strip()
+        if line.startswith("RSLEVEL="):
+            RSLEVEL = line[8:].strip()
     if HOOKS != "full":
         sys.stderr.write("NOTE: verification hooks level '%s' for this tree (see bin/build)\n" % HOOKS)
     if not pkg or not rsbin:
